@@ -279,7 +279,12 @@ def check_C08(c):
     cases = c.tlc("MC_reduce", "reduce", k, inv)
     c.replay("reduce", cases, dtypes="ordered,complex128,string", pals="ident,signed,edge,nonfinite", rotate=6 if q else 0,
              extra=["-ops", "all", "-entries", "func,method"] + (["-palrotate", "2"] if q else []))
-    c.rep.rule = ("TLC enumerates shapes of rank 1-4 x operand layouts {contiguous, lazily transposed, window, inner slice, step slice, "
+    # rank 4 with axes of length 3 (the middle-axis kernels step over blocks whose size depends on the reduced length)
+    k4 = dict(MinRank=4, MaxRank=4, MaxDim=3, MaxDimHi=3, HiRank=4, LayA={S("C")} if q else {S("C"), S("T"), S("Col")}, Kinds={S("Reduce"), S("Arg")})
+    cases = c.tlc("MC_reduce", "reduce-r4", k4, inv)
+    c.replay("reduce-r4", cases, dtypes="float64,int16,uint8,complex128", pals="ident,signed", rotate=1 if q else 0,
+             extra=["-ops", "all", "-entries", "func,method"] + (["-oprotate", "2", "-palrotate", "1"] if q else []))
+    c.rep.rule = ("TLC enumerates shapes of rank 1-4 (rank 4 with every axis length 1-3) x operand layouts {contiguous, lazily transposed, window, inner slice, step slice, "
                   "materialised} x every non-empty axis set in every order of listing (and the empty list) for the folds, every single axis "
                   "and all-axes for the arg-reductions; the fold is the placeholder OP, substituted by Sum/Max/Min/generic Reduce and "
                   "Argmax/Argmin for all ordered element types (complex for Sum) with palettes containing ties, negatives, overflow and "
